@@ -369,6 +369,120 @@ func c29HeadI(s []int) []int {
 	return s
 }
 
+
+// ---------- re-entry: one long-lived GridMapper / ValidatorManager while Current changes ----------
+
+// c29QueryReused asks the long-lived objects about their present validator set and compares with the exact relation.
+func c29QueryReused(r *vlib.Run, g *GridMapper, vm *ValidatorManager, step string, c c29Case) {
+	v := len(g.Current)
+	w := c29Isqrt(v)
+	if w < 1 {
+		w = 1
+	}
+	key := "reused-mapper;" + step + ";" + c29VKey(v)
+	r.Eval()
+	bad := func(site, kind, detail string) {
+		r.Violation(site, kind, key, fmt.Sprintf("long-lived mapper, step %s, now V=%d: %s", step, v, detail), c)
+	}
+	var msg string
+	var p bool
+	// every ordered pair of [-1, V]^2
+	p, msg, _ = vlib.Guard(func() {
+		for a := -1; a <= v; a++ {
+			for b := -1; b <= v; b++ {
+				if got, want := g.IsNeighborInEpoch(a, b), c29RefNeighbor(v, w, a, b); got != want {
+					bad("validator.GridMapper.IsNeighborInEpoch", "wrong-relation-after-resize", fmt.Sprintf("N(%d,%d)=%v, the %d-wide grid gives %v", a, b, got, w, want))
+					return
+				}
+			}
+		}
+	})
+	r.TransitionN(uint64((v + 2) * (v + 2)))
+	r.EvalN(uint64((v + 2) * (v + 2)))
+	r.Space(uint64((v+2)*(v+2)) + 1)
+	if p {
+		bad("validator.GridMapper.IsNeighborInEpoch", "go-panic", msg)
+		return
+	}
+	selves := c29Selves(v, w, 0)
+	for _, a := range selves {
+		var idx []int
+		if p, msg, _ := vlib.Guard(func() { idx = g.NeighborIndicesInEpoch(a) }); p {
+			bad("validator.GridMapper.NeighborIndicesInEpoch", "go-panic", msg)
+			return
+		}
+		r.Transition()
+		n := 0
+		ok := true
+		for _, b := range idx {
+			ok = ok && c29RefNeighbor(v, w, a, b)
+		}
+		for b := 0; b < v; b++ {
+			if c29RefNeighbor(v, w, a, b) {
+				n++
+			}
+		}
+		if !ok || n != len(idx) {
+			bad("validator.GridMapper.NeighborIndicesInEpoch", "wrong-relation-after-resize", fmt.Sprintf("index %d: got %v", a, c29HeadI(idx)))
+		}
+		// the manager, same long-lived grid: keys of the boundary indices
+		vm.SelfIndex, vm.SelfKey = a, g.Current[a].Ed25519
+		for _, j := range selves {
+			var got bool
+			if p, msg, _ := vlib.Guard(func() { got = vm.IsNeighbor(g.Current[j].Ed25519) }); p {
+				bad("validator.ValidatorManager.IsNeighbor", "go-panic", msg)
+				return
+			}
+			r.Transition()
+			if want := c29RefNeighbor(v, w, a, j); got != want {
+				bad("validator.ValidatorManager.IsNeighbor", "wrong-relation-after-resize", fmt.Sprintf("self %d, key of current validator %d: got %v, grid gives %v", a, j, got, want))
+			}
+		}
+	}
+}
+
+// c29CheckReentry keeps ONE GridMapper and ONE ValidatorManager alive while the current validator set changes.
+// mode "chain": V grows 0 -> maxV one validator at a time and shrinks back, queried after every change.
+// mode "jumps": k^2-1 -> k^2 -> k^2+1 -> k^2 -> k^2-1 for every k, and V -> 2V -> V for every V <= maxV/2.
+func c29CheckReentry(r *vlib.Run, maxV int, mode string) {
+	c := c29Case{Part: "reentry", V: maxV, A: mode}
+	pool := c29Set(1, maxV+2)
+	g := &GridMapper{Previous: c29Set(2, 3), Current: pool[:0], Next: c29Set(3, 3)}
+	vm := &ValidatorManager{Grid: g}
+	set := func(n int) { g.Current = pool[:n] }
+	r.Class("reentry " + mode)
+	if mode == "chain" {
+		c29QueryReused(r, g, vm, "initial", c)
+		for v := 1; v <= maxV; v++ {
+			set(v)
+			c29QueryReused(r, g, vm, "grow+1", c)
+		}
+		for v := maxV - 1; v >= 0; v-- {
+			set(v)
+			c29QueryReused(r, g, vm, "shrink-1", c)
+		}
+		return
+	}
+	for k := 1; k*k+1 <= maxV; k++ {
+		set(k*k - 1)
+		c29QueryReused(r, g, vm, "jump-to-k^2-1", c)
+		set(k * k)
+		c29QueryReused(r, g, vm, "k^2-1->k^2", c)
+		set(k*k + 1)
+		c29QueryReused(r, g, vm, "k^2->k^2+1", c)
+		set(k * k)
+		c29QueryReused(r, g, vm, "k^2+1->k^2", c)
+		set(k*k - 1)
+		c29QueryReused(r, g, vm, "k^2->k^2-1", c)
+	}
+	for v := 1; 2*v <= maxV; v++ {
+		set(v)
+		c29QueryReused(r, g, vm, "halve", c)
+		set(2 * v)
+		c29QueryReused(r, g, vm, "double", c)
+	}
+}
+
 // ---------- preferred initiator ----------
 
 func c29Lattice() []types.Ed25519Public {
@@ -444,6 +558,8 @@ func TestVerif_C29(t *testing.T) {
 	if r.IsReplay(&rc) {
 		if rc.Part == "grid" {
 			c29CheckGrid(r, rc.V, vlib.Pick(r, 300, 450))
+		} else if rc.Part == "reentry" {
+			c29CheckReentry(r, rc.V, rc.A)
 		} else {
 			var a, b types.Ed25519Public
 			copy(a[:], vlib.Unhex(rc.A))
@@ -464,6 +580,13 @@ func TestVerif_C29(t *testing.T) {
 		}
 		r.Space(1)
 		c29CheckGrid(r, v, fullV)
+	}
+	// re-entry: hidden state in long-lived objects (each chain is one case: it must run in one process, in order)
+	for _, mode := range []string{"chain", "jumps"} {
+		idx++
+		if r.Mine(idx) {
+			c29CheckReentry(r, maxV, mode)
+		}
 	}
 	keys := c29Lattice()
 	r.Extra("initiator_lattice_keys", len(keys))
